@@ -38,13 +38,15 @@ NTHREADS_BARRIER = 32
 
 META = {
     "property": "C13",
-    "proof_modules": ["PyodaProofs.C13"],
+    "proof_modules": ["PyodaProofs.C13", "PyodaProofs.C13Conc"],
     "drivers": ["drv_cache"],
     "theorems": [
         "Pyoda.C13.year_key_injective", "Pyoda.C13.yearCache_transparent", "Pyoda.C13.hebrewCache_transparent",
         "Pyoda.C13.zoneCache_transparent", "Pyoda.C13.lru_transparent", "Pyoda.C13.lru_size_le",
         "Pyoda.C13.lazy_same_object", "Pyoda.C13.lazy_known_some", "Pyoda.C13.yearCache_interleaved",
         "Pyoda.C13.lazy_locked_same_object_interleaved", "Pyoda.C13.lazy_unlocked_counterexample",
+        "Pyoda.C13.zoneCache_interleaved", "Pyoda.C13.hebrewCache_interleaved", "Pyoda.C13.lru_locked_linearizable",
+        "Pyoda.C13.formatInfo_transparent",
     ],
     "trusted_base": [
         "CPython: one dict/list slot read or write and Lock.acquire/release are atomic (GIL); `(d << k) | v == d*2**k + v` for 0 <= v < 2**k; `x >> k`, `x & (2**k-1)` are floor division / modulo (compared on every ycache/hcache op, negative years included)",
@@ -52,7 +54,7 @@ META = {
     ],
     "partial": [
         "real thread interleavings inside CPython (bytecode-level pre-emption, free-threaded builds) are sampled by the thread and barrier suites, not proved; the interleaving theorems hold at the atomic-action granularity stated in the trusted base",
-        "zone-cache and LRU interleaving theorems are not stated separately (zone: same shape as yearCache_interleaved; LRU: every operation runs entirely under the lock, so the sequential theorem applies)",
+        "the format-info model is tied to the code by the formatinfo.cache oracle and lru.run only (no dedicated correspondence op: it would have to clear the process-wide cache)",
     ],
     "rule": "distinct = distinct history (op line / oracle case); non-trivial = the history contains at least two keys that share a cache slot (years k*1024 apart, instants 16384 days apart, more keys than the LRU bound) or is a concurrent first use",
 }
